@@ -46,7 +46,7 @@ def generate(rng, tier):
     if rng.random() < 0.15:
         # the real TdmsWriter as producer: its own sequence of write() calls is what the crash tears
         from .. import wgen
-        prog = wgen.gen_program(rng, max_calls=4)
+        prog = wgen.gen_program(rng, max_calls=3)
         for sess in prog['sessions']:
             for call in sess:
                 for ob in call:
